@@ -84,6 +84,9 @@ pub struct PObs {
     pub crash: Option<CrashContext2>,
     pub spinner_in_principal: Vec<bool>,
     pub soft: serde_json::Value,
+    /// the crash context's stack pointer lies in no mapping (and none starts within the guard distance
+    /// above it): the crashing thread's stack cannot be located at all
+    pub crash_sp_unmapped: bool,
 }
 
 pub fn run_case(c: &PCase) -> Result<PObs, Verdict> {
@@ -195,11 +198,12 @@ pub fn run_case(c: &PCase) -> Result<PObs, Verdict> {
     let tids: Vec<i32> = ids.iter().map(|id| t.tid(*id)).collect();
     let mut opts = DumpOpts { blamed: t.pid, sanitize: c.sanitize, skip_unreferenced: c.skip, principal: principal_addr, size_limit: if c.limit { Some(1) } else { None }, ..Default::default() };
     let mut crash = None;
+    let crash_sp_unmapped = c.crash_on.filter(|_| !tids.is_empty()).map(|k| k % 7 == 6).unwrap_or(false);
     if let Some(k) = c.crash_on.filter(|_| !tids.is_empty()) {
         let i = pick(k, tids.len());
         let mut s = 0xC0FFEE + i as u64;
         let mut gregs: Vec<i64> = (0..23).map(|_| splitmix(&mut s) as i64).collect();
-        gregs[REG_RSP] = sps[i] as i64;
+        gregs[REG_RSP] = if k % 7 == 6 { 0x3000_0000_8000u64 as i64 } else { sps[i] as i64 };
         gregs[REG_RIP] = match (c.crash_rip_in_principal, principal) {
             (true, Some((s0, _))) => (s0 + 0x40) as i64,
             _ => 0x3000_0000_4000u64 as i64,
@@ -236,7 +240,7 @@ pub fn run_case(c: &PCase) -> Result<PObs, Verdict> {
     };
     let d = md::decode(&img);
     let soft = crate::props::c11::soft_errors_of(&img, &d).unwrap_or(serde_json::Value::Null);
-    Ok(PObs { target: t, img, d, tids, sps, stacks, maps, principal, principal_addr, crash, spinner_in_principal, soft })
+    Ok(PObs { target: t, img, d, tids, sps, stacks, maps, principal, principal_addr, crash, spinner_in_principal, soft, crash_sp_unmapped })
 }
 
 pub fn thread_strategy() -> impl Strategy<Value = PThread> {
